@@ -241,7 +241,7 @@ class Model:
             from .inventory import FUNCTIONS, MODULE_NAMES
         except ImportError:
             return
-        from .inline import MAX_ROUNDS, canonical_spellings, collapse_return_temps, collapse_test_temps, forward_substitute_new_temps, dissolve_attribute_records, dissolve_parameter_objects, fold_after_inlining, propagate_local_aliases, desugar_ifexp, desugar_match, desugar_exitstacks, desugar_partials_and_extends, desugar_return_all_any, dissolve_new_cm_classes, drop_absorbed_helpers, scalarise_local_objects, desugar_module_name_tables, unify_duplicate_unpackings, erase_new_namedtuples, inline_new_helpers, scalarise_local_dicts, unroll_new_tables, propagate_new_constants
+        from .inline import MAX_ROUNDS, canonical_spellings, collapse_return_temps, collapse_test_temps, forward_substitute_new_temps, dissolve_attribute_records, dissolve_parameter_objects, fold_after_inlining, propagate_local_aliases, desugar_ifexp, desugar_match, desugar_exitstacks, desugar_partials_and_extends, desugar_return_all_any, dissolve_new_cm_classes, drop_absorbed_helpers, scalarise_local_objects, desugar_module_name_tables, unify_duplicate_unpackings, erase_namedtuple_interfaces, erase_new_namedtuples, inline_new_helpers, scalarise_local_dicts, unroll_new_tables, propagate_new_constants
 
         # functions whose source differs from the pinned tree (digest of ast.dump): only those are rewritten by the
         # statement-level normalisations that would otherwise also touch pinned code
@@ -277,6 +277,11 @@ class Model:
             LOCALS = {}
         from .alpha import rename_locals_back
 
+        from .alpha import rename_params_back
+
+        self.params_renamed = rename_params_back(self, self.changed_functions, SIGNATURES) if self.changed_functions else []
+        if self.params_renamed:
+            self._reindex()
         self.locals_renamed = rename_locals_back(self, self.changed_functions, LOCALS) if self.changed_functions else []
         if self.locals_renamed:
             self._reindex()
@@ -306,6 +311,11 @@ class Model:
         self.namedtuples_erased = erase_new_namedtuples(self, MODULE_NAMES)
         if self.namedtuples_erased:
             self._reindex()
+        self.namedtuple_interfaces_erased = erase_namedtuple_interfaces(self, MODULE_NAMES)
+        if self.namedtuple_interfaces_erased:
+            self._reindex()
+            self.changed_functions = {q for q, f_ in self.functions.items() if not f_.module.short.startswith("_typeguard")
+                                      and HASHES.get(q) != hashlib.sha1(ast.dump(f_.node).encode()).hexdigest()[:12]}
 
         self.records_dissolved = dissolve_parameter_objects(self, MODULE_NAMES)
         if self.records_dissolved:
@@ -361,9 +371,9 @@ class Model:
             self.absorbed = drop_absorbed_helpers(self, FUNCTIONS)
             if self.absorbed:
                 self._reindex()
-        if self.cms_dissolved:
+        if self.cms_dissolved or self.inlined:
             hashes_ = {q for q, f_ in self.functions.items() if not f_.module.short.startswith("_typeguard") and HASHES.get(q) != hashlib.sha1(ast.dump(f_.node).encode()).hexdigest()[:12]}
-            if propagate_local_aliases(self, hashes_):
+            if self.cms_dissolved and propagate_local_aliases(self, hashes_):
                 self._reindex()
             if unify_duplicate_unpackings(self, hashes_):
                 self._reindex()
